@@ -27,10 +27,16 @@ func init() { commands["dbg"] = cmdDbg }
 //	-mode tcp     several machines concurrently over loopback TCP through the
 //	              real RPC server (debounced queue), several clients
 //	-mode replay  TLC-generated behaviours (record kinds + commands) from -in
-//	-mode lookup  the pure look-up functions over generated record lists
+//	-mode lookup  the pure look-up functions over generated record lists, and
+//	              over ONE list that grows between look-ups of the same key
+//	-mode filters every kind of record x a walk through every reachable set of
+//	              filter states (ToggleTool), -steps toggles at most per case
 func cmdDbg(args []string) int {
 	fs := flag.NewFlagSet("dbg", flag.ExitOnError)
-	mode := fs.String("mode", "stream", "stream|tcp|replay|lookup")
+	mode := fs.String("mode", "stream", "stream|tcp|replay|lookup|filters")
+	steps := fs.Int("steps", 400, "filters: toggles per case at most")
+	extra := fs.Int("extra", 4, "filters: records on top of one of every kind")
+	parts := fs.Int("parts", 1, "filters: the sets of filter states are dealt to this many cases")
 	seed := fs.Int64("seed", 1, "seed")
 	n := fs.Int("n", 50, "cases (stream, lookup) / groups (tcp)")
 	calls := fs.Int("calls", 8, "calls per source machine")
@@ -64,6 +70,8 @@ func cmdDbg(args []string) int {
 		err = dbgReplay(*in, *workers, *out, *tmp, F, sum)
 	case "lookup":
 		err = dbgLookup(*seed, *n, *out, sum)
+	case "filters":
+		err = dbgFilters(*seed, *n, *workers, *extra, *steps, *parts, *out, *tmp, F, *only, sum)
 	default:
 		err = fmt.Errorf("unknown mode %s", *mode)
 	}
@@ -335,6 +343,109 @@ func dbgLookup(seed int64, n int, out string, sum map[string]any) error {
 		}
 		lines = append(lines, dbgdrv.LookupCase(r, ln, i%5 != 4))
 	}
-	sum["cases"], sum["lines"], sum["shards"] = n, len(lines), 1
+	// a store that grows between two look-ups of the same key: every length 0..6,
+	// then longer ones
+	grown := 0
+	for i := 0; i < n/4; i++ {
+		ln := i % 7
+		if i >= n/8 {
+			ln = 7 + r.Intn(8)
+		}
+		lines = append(lines, dbgdrv.TxSeqCase(r, ln))
+		grown++
+	}
+	sum["cases"], sum["lines"], sum["shards"], sum["growing"] = n+grown, len(lines), 1, grown
 	return dbgdrv.WriteLines(out+".0.ndjson", lines)
+}
+
+func dbgFilters(seed int64, n, workers, extra, steps, parts int, out, tmp string, F am.S, only int, sum map[string]any) error {
+	if only >= 0 {
+		workers, n = 1, only+1
+	}
+	if workers > n {
+		workers = n
+	}
+	var wg sync.WaitGroup
+	errs := make([]error, workers)
+	nlines := make([]int, workers)
+	nbroken := make([]int, workers)
+	nretry := make([]int, workers)
+	var mu sync.Mutex
+	allSets := map[string]int{}
+	for w := 0; w < workers; w++ {
+		wg.Add(1)
+		go func(w int) {
+			defer wg.Done()
+			dir, err := os.MkdirTemp(tmp, "dbgdrv-")
+			if err != nil {
+				errs[w] = err
+				return
+			}
+			defer os.RemoveAll(dir)
+			s, err := dbgdrv.NewSession(dir, fmt.Sprintf("f%d", w), F)
+			if err != nil {
+				errs[w] = err
+				return
+			}
+			defer func() { s.Close() }()
+			again := false
+			for i := w; i < n; i += workers {
+				if only >= 0 && i != only {
+					continue
+				}
+				r := rand.New(rand.NewSource(seed*1_000_033 + int64(i)))
+				label := fmt.Sprintf("m%d-%d", seed, i)
+				mark := len(s.Lines)
+				sets, err := dbgdrv.FilterMatrixCase(s, r, label, extra, steps, parts, i%parts)
+				mu.Lock()
+				for k := range sets {
+					allSets[k]++
+				}
+				mu.Unlock()
+				if err != nil {
+					brokenDbg := errors.Is(err, dbgdrv.ErrBroken)
+					if !brokenDbg && again {
+						errs[w] = fmt.Errorf("case %s (second attempt): %w", label, err)
+						return
+					}
+					old := s
+					nretry[w]++
+					s, err = dbgdrv.NewSession(fmt.Sprintf("%s/n%d", dir, nretry[w]), fmt.Sprintf("f%d", w), F)
+					if err != nil {
+						errs[w] = err
+						return
+					}
+					if brokenDbg {
+						// a handler of the debugger panicked: the line is logged, go on
+						nbroken[w]++
+						s.Lines = old.Lines
+						again = false
+					} else {
+						// a stall without a panic: not a verdict, retried once
+						s.Lines = old.Lines[:mark]
+						again = true
+						i -= workers
+					}
+					old.Close()
+					continue
+				}
+				again = false
+			}
+			nlines[w] = len(s.Lines)
+			errs[w] = dbgdrv.WriteLines(fmt.Sprintf("%s.%d.ndjson", out, w), s.Lines)
+		}(w)
+	}
+	wg.Wait()
+	tot, nb, nr := 0, 0, 0
+	for w := range errs {
+		if errs[w] != nil {
+			return errs[w]
+		}
+		tot += nlines[w]
+		nb += nbroken[w]
+		nr += nretry[w] - nbroken[w]
+	}
+	sum["cases"], sum["lines"], sum["shards"], sum["broken"], sum["retried"] = n, tot, workers, nb, nr
+	sum["filter_sets_visited"] = len(allSets)
+	return nil
 }
